@@ -659,6 +659,15 @@ class Interp:
         if isinstance(cnd, ast.UnaryOp) and isinstance(cnd.op, ast.Not):
             f = self._member_filter(cnd.operand, var, env)
             return None if f is None else neg(f)
+        if isinstance(cnd, ast.Compare) and len(cnd.ops) == 1 and isinstance(cnd.ops[0], (ast.Is, ast.IsNot, ast.Eq, ast.NotEq)):
+            # (membership test) is <flag>, the flag being a Boolean the caller passed as a constant
+            f = self._member_filter(cnd.left, var, env)
+            flag = self.eval(cnd.comparators[0], env)
+            if f is not None and isinstance(flag, Cond) and flag.c in (TRUE, FALSE, ("const", True), ("const", False)):
+                want = flag.c in (TRUE, ("const", True))
+                if isinstance(cnd.ops[0], (ast.IsNot, ast.NotEq)):
+                    want = not want
+                return f if want else neg(f)
         if isinstance(cnd, ast.BoolOp):
             fs = [self._member_filter(v, var, env) for v in cnd.values]
             if any(f is None for f in fs):
@@ -848,6 +857,8 @@ class Interp:
             fi = self.prog.resolve_method(base.cls, e.attr)
             if fi is not None:
                 return ("unbound", base.cls, fi)
+        if isinstance(base, TupleV) and e.attr in getattr(base, "names", []):
+            return base.items[base.names.index(e.attr)]
         return Opaque("attr:" + norm(e))
 
     def ev_Subscript(self, e, env):
@@ -968,6 +979,22 @@ class Interp:
             if (len(pos) == 1 and isinstance(pos[0], VS) and pos[0].tt == 0) or not pos:
                 return TL(self.prov.top)
             return Opaque("new:" + cname)
+        if any(norm(b).split(".")[-1] == "NamedTuple" for b in ci.node.bases) and self.prog.resolve_method(cname, "__new__") is None:
+            # a record of named fields: a tuple whose items can also be read by name
+            names = [f for f, _d in ci.fields]
+            vals = list(pos) + [None] * (len(names) - len(pos))
+            for k, v in kw.items():
+                if k not in names:
+                    raise AnalysisError("%s has no field %s (in %s)" % (cname, k, self.cur))
+                vals[names.index(k)] = v
+            for i, (f, d) in enumerate(ci.fields):
+                if vals[i] is None:
+                    if d is None:
+                        raise AnalysisError("%s built without its field %s in %s" % (cname, f, self.cur))
+                    vals[i] = self.eval(d, {})
+            tv = TupleV(vals)
+            tv.names = names
+            return tv
         init = self.prog.resolve_method(cname, "__init__")
         obj = Obj(cname)
         rec = {"cls": cname, "func": self.cur, "node": node, "pos": pos, "kw": kw, "ok": False}
